@@ -194,6 +194,14 @@ func runCase(res *vkit.Result, c Case) {
 				var inner core.Schedule = schedule.NewConst(rate, rpsDur)
 				if c.Scenario == "shared-unknown-tail" {
 					inner = schedule.NewComposite(schedule.NewConst(rate, 60*time.Millisecond), schedule.NewOnce(1), schedule.NewUnlimited(rpsDur))
+				} else if c.Scenario == "shared-long" && c.Seed%4 == 1 {
+					// a shared profile made of thousands of small bursts with a pause of 200 µs after
+					// each: the instances cross a boundary into an empty part all the time
+					var parts []core.Schedule
+					for d := time.Duration(0); d < rpsDur; d += 200 * time.Microsecond {
+						parts = append(parts, schedule.NewOnce(2), schedule.NewConst(0, 200*time.Microsecond))
+					}
+					inner = schedule.NewComposite(parts...)
 				} else if c.Seed%2 == 0 {
 					// a shared profile made of several parts (an rps list): crossing a part boundary
 					// must not look like the end of the profile to any instance
@@ -381,6 +389,7 @@ func absDur(d time.Duration) time.Duration {
 var seeds = []Case{
 	{Startup: vkit.SchedSpec{Kind: "instance_step", A: 2, B: 8, N: 3, DurMs: 60}, Scenario: "free"},
 	{Startup: vkit.SchedSpec{Kind: "instance_step", A: 0, B: 4, N: 2, DurMs: 50}, Scenario: "shared-long"},
+	{Startup: vkit.SchedSpec{Kind: "composite", Parts: []vkit.SchedSpec{{Kind: "once", N: 8}, {Kind: "const", A: 0, DurMs: 400}, {Kind: "once", N: 4}}}, Scenario: "shared-long", Seed: 33},
 	{Startup: vkit.SchedSpec{Kind: "composite", Parts: []vkit.SchedSpec{{Kind: "once", N: 1}, {Kind: "const", A: 0, DurMs: 300}, {Kind: "once", N: 2}}}, Scenario: "shared-unknown-tail", Seed: 31},
 	{Startup: vkit.SchedSpec{Kind: "once", N: 6}, Scenario: "free"},
 	{Startup: vkit.SchedSpec{Kind: "instance_step", A: 1, B: 4, N: 1, DurMs: 150}, Scenario: "free-short"},
